@@ -1038,12 +1038,21 @@ func (ps *PeerState) ApplyNewRoundStepMessage(msg *NewRoundStepMessage) {
 	}
 }
 
+// wellFormedBitArray reports whether a bit array decoded from the wire is internally consistent
+// (the gossip routines index Elems by Bits).
+func wellFormedBitArray(bA *gcmn.BitArray) bool {
+	return bA == nil || (bA.Bits > 0 && len(bA.Elems) == (bA.Bits+63)/64)
+}
+
 func (ps *PeerState) ApplyCommitStepMessage(msg *CommitStepMessage) {
 	ps.mtx.Lock()
 	defer ps.mtx.Unlock()
 
 	if ps.Height != msg.Height {
 		return
+	}
+	if msg.BlockParts == nil || !wellFormedBitArray(msg.BlockParts) || msg.BlockParts.Bits != msg.BlockPartsHeader.Total {
+		return // malformed: ignore
 	}
 
 	ps.ProposalBlockPartsHeader = msg.BlockPartsHeader
@@ -1059,6 +1068,9 @@ func (ps *PeerState) ApplyProposalPOLMessage(msg *ProposalPOLMessage) {
 	}
 	if ps.ProposalPOLRound != msg.ProposalPOLRound {
 		return
+	}
+	if !wellFormedBitArray(msg.ProposalPOL) {
+		return // malformed: ignore
 	}
 
 	// TODO: Merge onto existing ps.ProposalPOL?
@@ -1086,6 +1098,9 @@ func (ps *PeerState) ApplyVoteSetBitsMessage(msg *VoteSetBitsMessage, ourVotes *
 	ps.mtx.Lock()
 	defer ps.mtx.Unlock()
 
+	if msg.Votes == nil || !wellFormedBitArray(msg.Votes) {
+		return // malformed: ignore
+	}
 	votes := ps.getVoteBitArray(msg.Height, msg.Round, msg.Type)
 	if votes != nil {
 		if ourVotes == nil {
